@@ -411,6 +411,11 @@ def judge(cfg, obs):
         errs.append(('stop-data-not-last', f"a put that arrived after stop() ran {late_run!r} after the "
                      f"stop_data run {runs['STOP']!r}"))
     if late_run is not None:
+        if ('STOP' in runs and late_run['start'] <= runs['STOP']['start']
+                and late_run.get('end', late_run.get('cancelled', 0)) > runs['STOP']['start']):
+            errs.append(('stop-data-overlaps-run',
+                         f"the stop_data run {runs['STOP']!r} began while the run of the last put "
+                         f"{late_run!r} was still active"))
         return errs     # (time and order predictions below do not cover this extra run)
     for v in vals:
         (t, e), = results[v]
@@ -488,6 +493,14 @@ def judge(cfg, obs):
         later = [v for v in runs if v != 'STOP' and runs[v]['start'] > runs['STOP']['start']]
         if later:
             errs.append(('stop-data-not-last', f"runs {later!r} started after the stop_data run"))
+        # pending work is completed first: nothing is still running when the stop_data run begins
+        t_sd = runs['STOP']['start']
+        busy = [v for v in runs if v != 'STOP' and v not in later
+                and runs[v].get('end', runs[v].get('cancelled', t_sd)) > t_sd]
+        if busy:
+            errs.append(('stop-data-overlaps-run',
+                         f"the stop_data run began at {t_sd} while the runs {busy!r} were still active: "
+                         f"{ {v: runs[v] for v in busy} }"))
     # --- output = number of active runs (read inside the coroutine at every log point)
     active = set()
     ended = {}
